@@ -13,6 +13,7 @@ import (
 	"crypto/x509"
 	"crypto/x509/pkix"
 	"math/big"
+	"strings"
 	"sync"
 	"time"
 )
@@ -38,7 +39,10 @@ type CA struct {
 // Creds is the credential fixture set (generated once per process; not part of any case).
 type Creds struct {
 	CA1, CA2 *CA
-	leaves   map[string]tls.Certificate
+	// CA3 issues nothing; ClientPoolMulti = {CA3, CA1} in this order (a server accepting two client CAs)
+	CA3             *CA
+	ClientPoolMulti *x509.CertPool
+	leaves          map[string]tls.Certificate
 }
 
 var (
@@ -170,6 +174,10 @@ func GetCreds() *Creds {
 		cl := inter.leaf("client", nil, ec(), notBefore, notAfter, both)
 		cl.Certificate = [][]byte{cl.Certificate[0], inter.Cert.Raw}
 		c.leaves["client-ecdsa-inter"] = cl
+		c.CA3 = newCA("verif CA 3 (other clients)")
+		c.ClientPoolMulti = x509.NewCertPool()
+		c.ClientPoolMulti.AddCert(c.CA3.Cert)
+		c.ClientPoolMulti.AddCert(c.CA1.Cert)
 		creds = c
 	})
 
@@ -191,4 +199,41 @@ func (c *Creds) ChainDER(name string) [][]byte {
 	}
 
 	return l.Certificate
+}
+
+// ExpectedServerChain models the documented choice among several configured certificates: a single
+// certificate is always used; without a server name the first one; otherwise the one whose common name
+// or DNS name matches the requested name case-insensitively (wildcards by replacing leading labels),
+// else the first one.
+func ExpectedServerChain(sv *EP, serverName string) [][]byte {
+	names := append(append([]string(nil), sv.CertsBefore...), sv.Cert)
+	if len(names) == 1 || serverName == "" {
+		return GetCreds().ChainDER(names[0])
+	}
+	want := strings.TrimRight(strings.ToLower(serverName), ".")
+	byName := map[string]string{}
+	for _, n := range names {
+		l, ok := GetCreds().Leaf(n)
+		if !ok || l.Leaf == nil {
+			continue
+		}
+		if l.Leaf.Subject.CommonName != "" {
+			byName[strings.ToLower(l.Leaf.Subject.CommonName)] = n
+		}
+		for _, d := range l.Leaf.DNSNames {
+			byName[strings.ToLower(d)] = n
+		}
+	}
+	if n, ok := byName[want]; ok {
+		return GetCreds().ChainDER(n)
+	}
+	labels := strings.Split(want, ".")
+	for i := range labels {
+		labels[i] = "*"
+		if n, ok := byName[strings.Join(labels, ".")]; ok {
+			return GetCreds().ChainDER(n)
+		}
+	}
+
+	return GetCreds().ChainDER(names[0])
 }
